@@ -139,6 +139,11 @@ func (q *MultiOpQueryer) queryBatch(inputs []*requests.Request) ([]map[string]in
 			return nil, resp.Errors
 		}
 
+		// an answer without errors must carry data, as for the requests of the batch below
+		if resp.Data == nil {
+			return nil, fmt.Errorf("response to the request with files from %s carries neither data nor errors", q.url)
+		}
+
 		results[i] = resp.Data
 	}
 
